@@ -433,6 +433,11 @@ class Inp:
     def __repr__(self): return 'Inp(%s)' % self.key
 
 
+class Alias:
+    """a local reference bound to another lvalue expression (auto& it = m_current)"""
+    def __init__(self, expr): self.expr = expr
+
+
 class Opaque:
     def __init__(self, tag): self.tag = tag
     def __repr__(self): return 'Opaque(%s)' % self.tag
@@ -482,7 +487,8 @@ class Interp:
                 yield bool(v.off), st; return
             g = self.sp.sumset(v.tabs, ((-INF, -1 - v.off), (1 - v.off, INF)))
             yield from self.split(g, st); return
-        if isinstance(v, (Ptr, Agg)): yield True, st; return
+        if isinstance(v, Ptr): yield v.base != 'null', st; return
+        if isinstance(v, Agg): yield True, st; return
         raise Unmodelled('condition on %r' % (v,))
 
     def split(self, g, st):
@@ -547,7 +553,10 @@ class Interp:
 
     def e_ref(self, e, st):
         d = e.get('d')
-        if d in st.env: yield st.env[d], st; return
+        if d in st.env:
+            v = st.env[d]
+            if isinstance(v, Alias): v = self.lv_get(v.expr, st)
+            yield v, st; return
         raise Unmodelled('unbound variable %s at %s' % (e.get('n'), e.get('loc')))
 
     def e_cast(self, e, st):
@@ -563,19 +572,39 @@ class Interp:
             else:
                 yield v, s
 
-    def lv_get(self, tgt, st):
-        if tgt.get('k') == 'ref': return st.env[tgt['d']]
-        if tgt.get('k') == 'member' and (tgt.get('b') or {}).get('k') == 'ref':
-            b = st.env[tgt['b']['d']]
-            if isinstance(b, Rec): return b.f[tgt['n']]
-            if isinstance(b, Agg) and tgt.get('n') in ('data', 'size'): return b.items[0 if tgt['n'] == 'data' else 1]
+    def lv_base(self, tgt, st):
+        """( container value, setter ) of the object a member expression reads from: a variable, *this, or a member of those"""
+        b = tgt.get('b') or {}
+        while b.get('k') == 'cast': b = b['e']
+        if b.get('k') == 'ref':
+            v = st.env[b['d']]
+            if isinstance(v, Alias): return self.lv_pair(v.expr, st)
+            return v, (lambda nv: st.env.__setitem__(b['d'], nv))
+        if b.get('k') == 'this': return st.env['this'], (lambda nv: st.env.__setitem__('this', nv))
+        if b.get('k') == 'member': return self.lv_pair(b, st)
+        raise Unmodelled('unsupported object expression at %s' % tgt.get('loc'))
+
+    def lv_pair(self, tgt, st):
+        """( current value, setter ) of an lvalue expression"""
+        while tgt.get('k') == 'cast': tgt = tgt['e']
+        if tgt.get('k') == 'ref':
+            v = st.env[tgt['d']]
+            if isinstance(v, Alias): return self.lv_pair(v.expr, st)
+            return v, (lambda nv: st.env.__setitem__(tgt['d'], nv))
+        if tgt.get('k') == 'member':
+            b, setb = self.lv_base(tgt, st)
+            n = tgt['n']
+            if isinstance(b, Rec) and n in b.f: return b.f[n], (lambda nv: setb(b.with_(n, nv)))
+            if isinstance(b, Agg) and n in ('data', 'size'):
+                i = 0 if n == 'data' else 1
+                def seta(nv):
+                    items = list(b.items); items[i] = nv; setb(Agg(items))
+                return b.items[i], seta
         raise Unmodelled('unsupported assignment target at %s' % tgt.get('loc'))
 
-    def lv_set(self, tgt, st, v):
-        if tgt.get('k') == 'ref': st.env[tgt['d']] = v; return
-        b = st.env[tgt['b']['d']]
-        if isinstance(b, Rec): st.env[tgt['b']['d']] = b.with_(tgt['n'], v); return
-        items = list(b.items); items[0 if tgt['n'] == 'data' else 1] = v; st.env[tgt['b']['d']] = Agg(items)
+    def lv_get(self, tgt, st): return self.lv_pair(tgt, st)[0]
+
+    def lv_set(self, tgt, st, v): self.lv_pair(tgt, st)[1](v)
 
     def e_un(self, e, st):
         op = e['op']
@@ -696,6 +725,28 @@ class Interp:
             return
         if len(args) == 1 and (e.get('copy') or e.get('elidable')):
             yield from self.ev(args[0], st); return
+        ctor = self.db.get(e.get('cu')) if e.get('cu') else None
+        if ctor is not None and ctor.get('inits') and len(ctor.get('params', [])) == len(args) and all(i.get('field') for i in ctor['inits']):
+            # a class with a member-init list: a record of its fields, initialised by evaluating the initialisers
+            def rec(i, acc, s):
+                if i == len(args): yield acc, s; return
+                for v, s2 in self.ev(args[i], s):
+                    if isinstance(v, Abort): yield v, s2; continue
+                    yield from rec(i + 1, acc + [v], s2)
+            for av, s in rec(0, [], st):
+                if isinstance(av, Abort): yield av, s; continue
+                for p, v in zip(ctor['params'], av): s.env[p['id']] = v
+                def inits(j, fields, s3):
+                    if j == len(ctor['inits']): yield Rec(fields), s3; return
+                    it = ctor['inits'][j]
+                    try:
+                        for v, s4 in self.ev(it['e'], s3):
+                            if isinstance(v, Abort): yield v, s4; continue
+                            yield from inits(j + 1, dict(fields, **{it['field']: v}), s4)
+                    except Unmodelled:
+                        yield from inits(j + 1, dict(fields, **{it['field']: Opaque('field')}), s3)
+                yield from inits(0, {}, s)
+            return
         yield from self.e_initlist(e, st)
 
     def e_member(self, e, st):
@@ -704,7 +755,8 @@ class Interp:
             if isinstance(b, Agg) and e.get('n') in ('data', 'size'):
                 yield b.items[0 if e['n'] == 'data' else 1], s
             elif isinstance(b, Rec) and e.get('n') in b.f:
-                yield b.f[e['n']], s
+                v = b.f[e['n']]
+                yield v, s
             else: raise Unmodelled('member %s of %r' % (e.get('n'), b))
 
     def e_index(self, e, st):
@@ -736,6 +788,7 @@ class Interp:
                 yield from rec(i + 1, acc + [v], s2)
         for av, s in rec(0, [], st):
             if isinstance(av, Abort): yield av, s; continue
+            self.argexprs = args
             yield from self.call(e, cq, cn, ov, av, s)
 
     def call(self, e, cq, cn, ov, av, st):
@@ -777,12 +830,38 @@ class Interp:
             yield Opaque('void'), st; return
         if cn == 'memcmp' and len(av) == 3 and all(isinstance(x, Ptr) for x in av[:2]) and isinstance(av[2], Val) and av[2].is_const():
             yield from self.memcmp(e, av[0], av[1], av[2].off, 0, st); return
+        if cn == 'memchr' and len(av) == 3 and isinstance(av[0], Ptr) and av[0].base == 'cur' and not isinstance(av[0].off, Val) and isinstance(av[1], Val) and av[1].is_const() and isinstance(av[2], Val):
+            yield from self.memchr(e, av[0], av[1], av[2], 0, st); return
         if cn == 'terminate' or cq == 'std::terminate':
             yield Abort('terminate'), st; return
         fn = self.db.get(e.get('cu')) if e.get('cu') else None
         if fn is not None and fn.get('body') is not None:
-            yield from self.inline(fn, av, st, ov); return
+            exprs = getattr(self, 'argexprs', None)
+            refs = []
+            if exprs is not None and len(exprs) == len(fn.get('params', [])):
+                for p, x in zip(fn['params'], exprs):
+                    t = (p.get('t') or '').strip()
+                    y = x
+                    while isinstance(y, dict) and y.get('k') == 'cast' and y.get('ck') == 'NoOp': y = y['e']
+                    if t.endswith('&') and not t.startswith('const ') and isinstance(y, dict) and y.get('k') in ('ref', 'member') and isinstance(st.env.get(y.get('d')) if y.get('k') == 'ref' else 1, (Rec, Alias, int)):
+                        refs.append((p['id'], y))
+            for v, s2 in self.inline(fn, av, st, ov):
+                for pid, x in refs:
+                    if pid in s2.env and isinstance(s2.env[pid], Rec): self.lv_set(x, s2, s2.env[pid])
+                yield v, s2
+            return
         raise Unmodelled('call of %s at %s' % (cq or cn, e.get('loc')))
+
+    def memchr(self, e, b, ch, n, i, st):
+        """std::memchr( b, ch, n ): the first of the n bytes at b that equals ch, else null"""
+        for more, s1 in self.compare('>', n, Val.const(i), st):
+            if isinstance(more, Abort): yield more, s1; continue
+            if not more: yield Ptr('null', 0), s1; continue
+            if b.off + i >= CAP: yield Abort('window'), s1; continue
+            self.need(s1, b.off + i, e.get('loc'))
+            for eq, s2 in self.compare('==', fit(self.byte(b.off + i, 'unsigned char'), 'unsigned char'), Val.const(ch.off & 0xff), s1):
+                if eq: yield Ptr('cur', b.off + i), s2
+                else: yield from self.memchr(e, b, ch, n, i + 1, s2)
 
     def memcmp(self, e, a, b, n, i, st):
         """bytes are compared as unsigned char; the sign of the first difference is the result"""
@@ -933,6 +1012,11 @@ class Interp:
         d = ds[i]
         if d.get('init') is None:
             st.env[d['id']] = Opaque('uninit'); yield from self.decls(ds, i + 1, st); return
+        t = (d.get('t') or '').strip()
+        ini = d['init']
+        while ini.get('k') == 'cast' and ini.get('ck') in ('NoOp',): ini = ini['e']
+        if t.endswith('&') and not t.startswith('const ') and ini.get('k') in ('ref', 'member'):
+            st.env[d['id']] = Alias(ini); yield from self.decls(ds, i + 1, st); return
         for v, s2 in self.ev(d['init'], st):
             if isinstance(v, Abort): yield v.kind, v.what, s2; continue
             if isinstance(v, Val): v = fit(v, d.get('t'))
@@ -946,6 +1030,13 @@ class Interp:
 
     def loop_iter(self, s, st, n):
         if n > 40: raise Unmodelled('loop does not terminate within 40 iterations at %s' % s.get('loc'))
+        if s.get('var'):
+            for kind, v, s1 in self.decls([s['var']], 0, st):
+                if kind != 'fall': yield kind, v, s1
+                else: yield from self.loop_iter2(s, s1, n)
+        else: yield from self.loop_iter2(s, st, n)
+
+    def loop_iter2(self, s, st, n):
         conds = [(Val.const(1), st)] if s.get('cond') is None else self.ev(s['cond'], st)
         for c, s2 in conds:
             if isinstance(c, Abort): yield c.kind, c.what, s2; continue
@@ -953,7 +1044,7 @@ class Interp:
                 if not b: yield 'fall', None, s3; continue
                 for kind, v, s4 in self.run(s['body'], s3):
                     if kind == 'break': yield 'fall', None, s4
-                    elif kind == 'return': yield kind, v, s4
+                    elif kind in ('return', 'terminate', 'throw', 'window'): yield kind, v, s4
                     else:
                         if s.get('inc'):
                             for _, s5 in self.ev(s['inc'], s4):
